@@ -55,6 +55,7 @@ pub(crate) enum K {
     Opaque,
     ReReg,
     BanExcept,
+    SlowPeer,
 }
 
 pub(crate) const NICKS: &[&str] = &["ann", "bob", "cat", "dan", "eve", "fay", "gus", "hal", "root", "ops", "żółw", "ünï", "a", "bobby", "Ann", "BOB"];
@@ -115,6 +116,9 @@ pub(crate) struct Gen<'a> {
     pub follow_rate: (u32, u32),
     /// transport fragmentation for this history: capped reads/writes on some connections, lines sent in two pieces
     pub frag: bool,
+    /// some steps send two or three commands of one connection in one TCP segment
+    pub pipe: bool,
+    no_settle: bool,
 }
 
 /// the short form of a full list mask, if it has one: n!*@* -> n, n!*@h -> n@h, n!u@* -> n!u
@@ -150,7 +154,7 @@ impl<'a> Gen<'a> {
     pub(crate) fn new(seed: u64, cfg: &SimConfig, prof: &'a Profile) -> Gen<'a> {
         let mut r = Rng::new(seed);
         let n = r.range(prof.conns.0, prof.conns.1);
-        Gen { r, m: Model::new(cfg), prof, actions: vec![], uniq: 0, n_conns_target: n, exclude: vec![], last_labels: vec![], last_conn: None, last_line: String::new(), follow_rate: (1, 3), frag: false }
+        Gen { r, m: Model::new(cfg), prof, actions: vec![], uniq: 0, n_conns_target: n, exclude: vec![], last_labels: vec![], last_conn: None, last_line: String::new(), follow_rate: (1, 3), frag: false, pipe: false, no_settle: false }
     }
 
     fn text(&mut self) -> String {
@@ -422,8 +426,51 @@ impl<'a> Gen<'a> {
         }
         self.last_line = String::from_utf8_lossy(&joined).lines().next().unwrap_or("").trim_end().to_string();
         self.actions.extend(acts);
-        self.actions.push(Action::Settle);
+        if !self.no_settle {
+            self.actions.push(Action::Settle);
+        }
         true
+    }
+
+    /// two or three commands of one connection in one segment: handled strictly in order by that connection's
+    /// task, their effects compared as one step
+    fn pipelined_step(&mut self) -> bool {
+        let regs = self.registered_conns();
+        if regs.is_empty() {
+            return false;
+        }
+        let c = regs[self.r.below(regs.len())];
+        let kinds = [K::Privmsg, K::Notice, K::Join, K::Part, K::Names, K::Who, K::Whois, K::Topic, K::TopicQuery, K::Away, K::Ison, K::Userhost, K::Lusers, K::Ping, K::Nick, K::Invite, K::Kick, K::List, K::ModeQuery, K::Whowas];
+        let n = self.r.range(2, 3);
+        let mut sent = 0;
+        let mut used: Vec<K> = vec![];
+        for _ in 0..n {
+            if !self.m.conns[c].alive || !self.m.conns[c].registered {
+                break;
+            }
+            let kind = kinds[self.r.below(kinds.len())];
+            if used.contains(&kind) {
+                // (two replies of the same kind with open parts - e.g. two 319 lists - cannot be told apart in one step)
+                continue;
+            }
+            used.push(kind);
+            if let Some(line) = self.dry(kind, c) {
+                if line.len() > 1900 {
+                    // a line that ends the session (417) would take the queued echoes of the commands before it with it
+                    continue;
+                }
+                self.no_settle = true;
+                let ok = self.emit(vec![Action::line(c, &line)]);
+                self.no_settle = false;
+                if ok {
+                    sent += 1;
+                }
+            }
+        }
+        if sent > 0 {
+            self.actions.push(Action::Settle);
+        }
+        sent > 0
     }
 
     /// the line(s) a step of this kind would send now, without changing anything (for burst scripts, whose
@@ -499,7 +546,13 @@ impl<'a> Gen<'a> {
             self.say(c, &format!("PASS {}", p));
         }
         self.say(c, &format!("NICK {}", nick));
-        self.say(c, &format!("USER {} 0 * :Real {}", user, nick));
+        // (real names may look like addresses or sources: WHO masks are compared with them too)
+        let real = match self.r.below(12) {
+            0 => format!("{}@mail.example.org", nick),
+            1 => format!("Real! {}@home", nick),
+            _ => format!("Real {}", nick),
+        };
+        self.say(c, &format!("USER {} 0 * :{}", user, real));
         if self.m.conns[c].cap_neg {
             self.say(c, "CAP END");
         }
@@ -536,6 +589,12 @@ impl<'a> Gen<'a> {
             }
             if self.m.server_quit {
                 break;
+            }
+            if self.pipe && self.r.chance(1, 5) {
+                if self.pipelined_step() {
+                    done += 1;
+                }
+                continue;
             }
             if self.step(kind) {
                 done += 1;
@@ -1418,7 +1477,7 @@ impl<'a> Gen<'a> {
                 self.say(c, l)
             }
             K::Opaque => {
-                let l = ["VERSION", "TIME", "INFO", "HELP", "HELP COMMANDS", "LINKS", "CONNECT other.srv 6667", "REHASH", "RESTART", "VERSION other.srv", "TIME other.srv", "HELP nosuchtopic", "MOTD other.srv", "ADMIN other.srv", "LIST #a other.srv", "WHOIS other.srv ann", "WHOIS irc.sim bob", "STATS u other.srv", "LUSERS * other.srv", "INFO other.srv", "LINKS other.srv *"][self.r.below(21)];
+                let l = ["VERSION", "TIME", "INFO", "HELP", "HELP COMMANDS", "LINKS", "CONNECT other.srv 6667", "REHASH", "RESTART", "VERSION other.srv", "TIME other.srv", "HELP nosuchtopic", "MOTD other.srv", "ADMIN other.srv", "LIST #a other.srv", "WHOIS other.srv ann", "WHOIS irc.sim bob", "STATS u other.srv", "LUSERS * other.srv", "INFO other.srv", "LINKS other.srv *", "jo\u{131}n #a", "name\u{17f}", "pa\u{df} x", "l\u{131}st"][self.r.below(25)];
                 self.say(c, l)
             }
             K::Nick => {
@@ -1476,6 +1535,68 @@ impl<'a> Gen<'a> {
                 self.emit(vec![Action::Reset { c }])
             }
             K::HalfOpen => self.emit(vec![Action::BreakWrites { c }]),
+            K::SlowPeer => {
+                // one peer reads through a bounded window (or not at all) while others go on with ordinary commands, some of
+                // them aimed at it (KICK, INVITE, messages, renames of co-members); then it drains. Everybody else is judged
+                // step by step, the slow peer's backlog once at the end.
+                let regs = self.registered_conns();
+                if regs.len() < 3 {
+                    return false;
+                }
+                let sl = regs[self.r.below(regs.len())];
+                let sn = self.nick_of(sl);
+                self.mark(&format!("slow:on:{}", sl));
+                let n = [0usize, 0, 1, 17, 60, 200][self.r.below(6)];
+                self.actions.push(Action::Window { c: sl, n });
+                self.exclude.push(sl);
+                let saved_follow = self.follow_rate;
+                self.follow_rate = (0, 1);
+                let kinds = [K::Join, K::Part, K::Kick, K::Nick, K::Topic, K::Invite, K::Privmsg, K::Notice, K::Names, K::Who, K::Away, K::JoinMulti, K::Whois, K::TopicQuery];
+                let steps = self.r.range(3, 9);
+                let mut done = 0;
+                for _ in 0..steps * 3 {
+                    if done >= steps {
+                        break;
+                    }
+                    let others: Vec<usize> = self.registered_conns();
+                    if others.is_empty() {
+                        break;
+                    }
+                    let ok = if self.r.chance(1, 3) {
+                        // aimed at the slow peer
+                        let o = others[self.r.below(others.len())];
+                        let on = self.nick_of(o);
+                        let ch = self.pick_chan_of(&sn).or_else(|| self.pick_chan_of(&on)).unwrap_or_else(|| "#a".to_string());
+                        let t = self.text();
+                        let line = match self.r.below(5) {
+                            0 => format!("KICK {} {} :slow", ch, sn),
+                            1 => format!("INVITE {} {}", sn, ch),
+                            2 => format!("PRIVMSG {} :{}", sn, t),
+                            3 => format!("NOTICE {},{} :{}", ch, sn, t),
+                            _ => format!("TOPIC {} :{}", ch, t),
+                        };
+                        self.say(o, &line)
+                    } else {
+                        let k = kinds[self.r.below(kinds.len())];
+                        self.step(k)
+                    };
+                    if ok {
+                        done += 1;
+                    }
+                    if self.r.chance(1, 4) {
+                        let g = [1usize, 30, 100, 500][self.r.below(4)];
+                        self.actions.push(Action::Grant { c: sl, n: g });
+                        self.actions.push(Action::Settle);
+                    }
+                }
+                self.follow_rate = saved_follow;
+                self.exclude.retain(|x| *x != sl);
+                self.actions.push(Action::Window { c: sl, n: usize::MAX });
+                self.actions.push(Action::Settle);
+                self.mark("slow:off");
+                self.actions.push(Action::Settle);
+                done > 0
+            }
             K::Backpressure => {
                 // one or two receivers stop/limit reading while others talk; then they drain in a seeded order
                 let regs = self.registered_conns();
